@@ -193,3 +193,11 @@ Qed.
 
 Lemma hash_lt name : hash name < 512.
 Proof. unfold hash. change c_numHash with 512. apply N.mod_lt. lia. Qed.
+
+(* the constants of the source are the numbers of the published v1 format *)
+Lemma v1_constants :
+  c_recordUnit = 32 /\ c_pageSize = 16384 /\ c_minFileLen = 16384 /\ c_numHash = 512 /\
+  c_maxNameLen = 4096 /\ c_maxMetaLen = 512 /\ c_limitOff = 0 /\ c_hashOff = 4 /\
+  c_hdrPrefix = [35; 32; 116; 101; 108; 101; 109; 101; 116; 114; 121; 47; 99; 111; 117; 110; 116; 101; 114;
+                 32; 102; 105; 108; 101; 32; 118; 49; 10].
+Proof. repeat split. Qed.
